@@ -137,7 +137,7 @@ def _res_tag(v):
     return None
 
 
-def behaviour(case, tree):
+def behaviour(case, tree, kinds=True):
     """merged-tree view and evaluation outcome of before + [tree] + after"""
     from awesomeyaml.builder import Builder
     from awesomeyaml.config import Config
@@ -151,7 +151,7 @@ def behaviour(case, tree):
     o = lib.outcome(b.build)
     if o[0] == 'err':
         return ('merge-err', lib.err_kind(o[1]))
-    mv = view.tree_view(o[1], flags=('prio', 'safe'), md=True)
+    mv = view.tree_view(o[1], flags=('prio', 'safe'), md=True, kinds=kinds)
     verif_targets.reset()
     e = lib.outcome(lambda: Config(o[1]))
     calls = sorted((c[0], repr(util.typed(c[1], other=_res_tag))) for c in verif_targets.LOG)
